@@ -163,6 +163,9 @@ class SnapshotMonitor(Ext):
         expv = self.mon.version_at(k) if hasattr(self.mon, 'version_at') else None
         if expv is not None and ver is not None and ver != expv:
             raise Violation('C09', 'snapshot_version_wrong', '%r snapshot at %d stores enabled version %r, log prefix defines %r' % (p, k, ver, expv))
+        if expv and ver is None:
+            raise Violation('C09', 'snapshot_version_wrong', '%r snapshot at %d does not store the enabled code version, the log prefix defines %r'
+                            % (p, k, expv), missing=True)
 
     def check_dump_file(self, p, where):
         f = p.conf.fullDumpFile
